@@ -1076,7 +1076,8 @@ static int sp_dgemv(char tA, int m, int n, number alpha, void *a, int oA,
   ccs *A = a;
   double *X = x, *Y = y;
 
-  scal[A->id]((tA == 'N' ? &m : &n), &beta, Y, &iy);
+  int aiy = abs(iy);   /* scal needs a positive increment */
+  scal[A->id]((tA == 'N' ? &m : &n), &beta, Y, &aiy);
 
   if (!m) return 0;
   int i, j, k, oi = (A->nrows ? oA % A->nrows : 0),
@@ -1115,7 +1116,8 @@ static int sp_zgemv(char tA, int m, int n, number alpha, void *a, int oA,
   _Dcomplex tmp; 
 #endif
 
-  scal[A->id]((tA == 'N' ? &m : &n), &beta, Y, &iy);
+  int aiy = abs(iy);   /* scal needs a positive increment */
+  scal[A->id]((tA == 'N' ? &m : &n), &beta, Y, &aiy);
 
   if (!m) return 0;
   int i, j, k, oi = (A->nrows ? oA % A->nrows : 0),
@@ -1159,7 +1161,8 @@ int sp_dsymv(char uplo, int n, number alpha, ccs *A, int oA, void *x, int ix,
     number beta, void *y, int iy)
 {
   double *X = x, *Y = y;
-  scal[A->id](&n, &beta, y, &iy);
+  int aiy = abs(iy);   /* scal needs a positive increment */
+  scal[A->id](&n, &beta, y, &aiy);
 
   if (!n) return 0;
   int i, j, k, oi = (A->nrows ? oA % A->nrows : 0),
@@ -1201,7 +1204,8 @@ int sp_zsymv(char uplo, int n, number alpha, ccs *A, int oA, void *x, int ix,
   _Dcomplex *X = x, *Y = y;
   _Dcomplex tmp;
 #endif
-  scal[A->id](&n, &beta, y, &iy);
+  int aiy = abs(iy);   /* scal needs a positive increment */
+  scal[A->id](&n, &beta, y, &aiy);
 
   if (!n) return 0;
   int i, j, k, oi = (A->nrows ? oA % A->nrows : 0),
